@@ -180,6 +180,113 @@ def bit_operand_order_sweep(tier="quick", seed=0):
                          "evaluations": data["evaluations"], "exhaustive_within_bound": True, "bound": "operands {Bit(0), Bit(1), two input ports} x 3 operators, at least one run-time operand, all input values"}]}
 
 
+_INT_SCRIPT = r'''
+from __future__ import annotations
+import itertools, json, linecache, re
+import cohdl
+from cohdl import Entity, Port, Bit, Integer, op, std
+
+
+def trunc(a, b):
+    q = abs(a) // abs(b)
+    return q if (a < 0) == (b < 0) else -q
+
+
+OPS = {
+    "+": (lambda a, b: a + b, lambda a, b: a + b, False), "-": (lambda a, b: a - b, lambda a, b: a - b, False), "*": (lambda a, b: a * b, lambda a, b: a * b, False),
+    "%": (lambda a, b: a % b, lambda a, b: a % b, True),
+    "truncdiv": (lambda a, b: op.truncdiv(a, b), trunc, True), "rem": (lambda a, b: op.rem(a, b), lambda a, b: a - b * trunc(a, b), True),
+}
+bad, n = [], 0
+R = range(-5, 6)
+for name, (fn, ref, div) in OPS.items():
+    for order in ("Integer,int", "int,Integer", "Integer,Integer"):
+        fail = None
+        for a, b in itertools.product(R, R):
+            if div and b == 0:
+                continue
+            n += 1
+            x = Integer(a) if order.startswith("Integer") else a
+            y = Integer(b) if order.endswith("Integer") else b
+            try:
+                got = fn(x, y)
+            except Exception as e:
+                fail = f"{a} {name} {b} raised {type(e).__name__}: {str(e)[:60]}"
+                break
+            if not isinstance(got, Integer) or int(got) != ref(a, b):
+                fail = f"{a} {name} {b} = {got!r}, expected Integer({ref(a, b)})"
+                break
+        if fail:
+            bad.append([f"fold:{name}:{order}", fail])
+
+# the emitted side: a Python int on either side of a run-time integer
+VHDL = {"+": "+", "-": "-", "*": "*", "%": "mod", "truncdiv": "/", "rem": "rem"}
+
+
+def build(expr):
+    ns = dict(globals())
+    src = f"""
+class Top(Entity):
+    i = Port.input(int)
+    o = Port.output(int)
+
+    def architecture(self):
+        @std.concurrent
+        def logic():
+            self.o <<= {expr}
+"""
+    fname = f"<int design {len(linecache.cache)}>"
+    linecache.cache[fname] = (len(src), None, src.splitlines(True), fname)
+    exec(compile(src, fname, "exec"), ns)
+    return std.VhdlCompiler.to_string(ns["Top"])
+
+
+for name in OPS:
+    for lhs, rhs in (("7", "self.i"), ("self.i", "7")):
+        n += 1
+        expr = f"op.{name}({lhs}, {rhs})" if name in ("truncdiv", "rem") else f"{lhs} {name} {rhs}"
+        key = f"design:{expr}"
+        try:
+            vhdl = build(expr)
+        except Exception as e:
+            bad.append([key, f"rejected ({type(e).__name__}: {str(e)[:60]}); the other operand order is accepted" ])
+            continue
+        want = f"({lhs.replace('self.', '')}) {VHDL[name]} ({rhs.replace('self.', '')})"
+        if want not in vhdl:
+            got = [l.strip() for l in vhdl.splitlines() if "temp" in l and "<=" in l][:1]
+            bad.append([key, f"expected the expression {want}, emitted {got}"])
+accepted = [b for b in bad if b[0].startswith("design")]
+print("RESULT" + json.dumps({"evaluations": n, "bad": bad}))
+'''
+
+
+def integer_operand_order_sweep(tier="quick", seed=0):
+    """BOUNDED: +, -, *, %, op.truncdiv, op.rem on (Integer, int), (int, Integer), (Integer, Integer) for all values in -5..5:
+    every order folds to the Integer of the reference value; designs with the int on either side of a run-time integer are
+    accepted and emit the operands in source order"""
+    from contracts.c06_extra import _run_design
+
+    rc, text = _run_design(_INT_SCRIPT)
+    if "RESULT" not in text:
+        return {"problems": [f"integer_operand_order_sweep: the script failed: {text[-400:]}"]}
+    data = json.loads(text[text.index("RESULT") + 6:].splitlines()[0])
+    violations = []
+    for key, what in data["bad"]:
+        oid = f"C09/integer_operand_order_sweep[{key}]#bounded"
+        w = f"{key}: {what}"
+        violations.append({"kind": "custom", "qual": "<C09 Integer operators, operand order>", "case": key, "oid": oid, "check": "integer_operand_order_sweep", "key": key, "assignment": {"case": key}, "solver": {"what": w}, "reproduced": True,
+                           "replay_payload": {"property": "C09", "custom": "contracts.c09_bitops.replay_int_sweep", "key": key, "obligation": oid, "verifier_output": w}})
+    return {"evaluations": data["evaluations"], "distinct": data["evaluations"], "violations": violations, "samples": [{"evaluations": data["evaluations"]}],
+            "bounded": [{"function": "cohdl._core._integer:Integer.__add__ ... _cohdl_rrem_ (both operand orders), cohdl._core._op:truncdiv / rem", "case": "integer_operand_order_sweep", "evaluations": data["evaluations"],
+                         "exhaustive_within_bound": True, "bound": "6 operators x 3 operand kinds orders x values -5..5 (divisor != 0); 12 designs"}]}
+
+
+def replay_int_sweep(payload):
+    r = integer_operand_order_sweep()
+    hit = [v for v in r.get("violations", []) if v["key"] == payload["key"]]
+    return {"reproduced": bool(hit), "detail": hit[0]["solver"]["what"] if hit else "every operand order folds to the reference value and is accepted in a design"}
+
+
 def replay_sweep(payload):
     r = bit_operand_order_sweep()
     hit = [v for v in r.get("violations", []) if v["key"] == payload["key"]]
